@@ -352,6 +352,10 @@ class Session:
             if ok:
                 self.listener = True
                 self.dc = False
+            elif v == "PASV" and self.ipv6_only and self.logged:
+                # the listener may well have been opened; only its address cannot be expressed
+                # in a 227 reply.  The model follows the implementation here (under-specified).
+                self.listener = True
         elif v in ("STOR", "APPE"):
             if ok and stored is not None:
                 p = resolve(self.cwd, arg)
